@@ -180,11 +180,12 @@ pub fn safe_instruction(rng: &mut Rng) -> Vec<u8> {
         8 => vec![rng.pick(&[0x34u8, 0x35])],
         9 => vec![0x36, rng.byte_b()],
         10 => {
-            let a = 0xc000 + rng.below(0x0800) as u16;
+            // LD (a16),A into work RAM, or (1 in 4) the three-byte form aimed at high RAM
+            let a = if rng.chance(1, 4) { 0xff80 + rng.below(0x40) as u16 } else { 0xc000 + rng.below(0x0800) as u16 };
             vec![0xea, a as u8, (a >> 8) as u8]
         }
         11 => {
-            let a = if rng.chance(1, 2) { 0x4000 + rng.below(0x4000) as u16 } else { rng.pick(&[0xc000u16, 0xc100, 0x0000, 0x3fff, 0x4000, 0x7fff, 0xff80, 0xa000]) };
+            let a = if rng.chance(1, 2) { 0x4000 + rng.below(0x4000) as u16 } else { rng.pick(&[0xc000u16, 0xc100, 0x0000, 0x3fff, 0x4000, 0x7fff, 0xff80, 0xa000, 0xff04, 0xff05, 0xff44, 0xff41, 0xff0f, 0xffff, 0xff90]) };
             vec![0xfa, a as u8, (a >> 8) as u8]
         }
         12 => vec![rng.pick(&[0xe0u8, 0xf0]), 0x80 + rng.below(0x40) as u8],
